@@ -22,6 +22,11 @@ var FieldNameShapes = []string{"id", "user_id", "name", "page_size", "with2digit
 type RouteOpts struct {
 	SafeOnly     bool // only shapes inside every partial theorem's side condition and that compile
 	AllowNoSlash bool
+	// HostileQuery also draws query fields the Go client's zero-value comparison does not
+	// compile for (repeated / optional / bytes / enum-free kinds).
+	HostileQuery bool
+	// SameMethodNames lets two services of the file share an RPC name.
+	SameMethodNames bool
 }
 
 type routeField struct {
@@ -71,13 +76,15 @@ func GenRouteFile(r *R, idx int, o RouteOpts) *ir.Request {
 			svc.HasConfig = true // config present with an empty base path
 		}
 		nm := 1 + r.Intn(4)
+		usedInSvc := map[string]bool{}
 		for m := 0; m < nm; m++ {
 			mn := Pick(r, MethodNameShapes)
 			gn := ir.GoCamelCase(mn)
-			for usedM[mn] || usedGo[gn] {
+			for (usedM[mn] || usedGo[gn]) && !(o.SameMethodNames && !usedInSvc[gn]) {
 				mn = mn + "Z"
 				gn = ir.GoCamelCase(mn)
 			}
+			usedInSvc[gn] = true
 			usedM[mn] = true
 			usedGo[gn] = true
 			meth := &ir.Method{Name: mn}
@@ -145,7 +152,11 @@ func GenRouteFile(r *R, idx int, o RouteOpts) *ir.Request {
 			}
 			for i := 0; i < nq; i++ {
 				fn := uniqueName(usedF, Pick(r, FieldNameShapes))
-				fields = append(fields, routeField{fn, Pick(r, []string{"string", "int32", "int64", "bool", "uint32", "double"}), "query"})
+				qk := Pick(r, []string{"string", "int32", "int64", "bool", "uint32", "double"})
+				if o.HostileQuery && r.P(1, 4) {
+					qk = Pick(r, []string{"bytes", "repeated:string", "optional:int32", "repeated:int64"})
+				}
+				fields = append(fields, routeField{fn, qk, "query"})
 			}
 			if !bodiless {
 				nb := r.Intn(3)
@@ -170,6 +181,9 @@ func GenRouteFile(r *R, idx int, o RouteOpts) *ir.Request {
 			for n, pi := range perm {
 				rf := fields[pi]
 				fl := &ir.Field{Name: rf.name, Number: int32(n + 1), Kind: rf.kind}
+				if i := strings.Index(rf.kind, ":"); i > 0 {
+					fl.Card, fl.Kind = rf.kind[:i], rf.kind[i+1:]
+				}
 				if rf.role == "query" {
 					q := &ir.Query{Name: rf.name}
 					switch r.Intn(4) {
